@@ -227,9 +227,13 @@ pub trait KmerApi<A: SxK>: Send + Sync {
     fn from_usize(&self, x: usize) -> Option<u128>;
     // ---- observation -----------------------------------------------------------------
     fn display(&self, v: u128) -> String;
+    /// format!("{:>w$}|{:<w$}|{:^w$}", kmer, kmer, kmer)
+    fn display_padded(&self, v: u128, w: usize) -> String;
     fn len(&self, v: u128) -> (usize, bool);
     fn hash(&self, v: u128) -> Recorder;
     fn sip(&self, v: u128) -> u64;
+    /// what the vector `vec![a, b]` of k-mers feeds a hasher (length prefix + Hash::hash_slice)
+    fn hash_pair(&self, a: u128, b: u128) -> Recorder;
     /// (a == b, a != b)
     fn eq(&self, a: u128, b: u128) -> (bool, bool);
     fn cmp(&self, a: u128, b: u128) -> Option<CmpObs>;
@@ -301,6 +305,10 @@ impl<A: SxK, const K: usize, S: Store> KmerApi<A> for KOps<A, K, S> {
     fn display(&self, v: u128) -> String {
         Self::mk(v).to_string()
     }
+    fn display_padded(&self, v: u128, w: usize) -> String {
+        let k = Self::mk(v);
+        format!("{k:>w$}|{k:<w$}|{k:^w$}")
+    }
     fn len(&self, v: u128) -> (usize, bool) {
         let k = Self::mk(v);
         (k.len(), k.is_empty())
@@ -310,6 +318,9 @@ impl<A: SxK, const K: usize, S: Store> KmerApi<A> for KOps<A, K, S> {
     }
     fn sip(&self, v: u128) -> u64 {
         rec::sip(&Self::mk(v))
+    }
+    fn hash_pair(&self, a: u128, b: u128) -> Recorder {
+        rec::stream(&vec![Self::mk(a), Self::mk(b)])
     }
     fn eq(&self, a: u128, b: u128) -> (bool, bool) {
         let (x, y) = (Self::mk(a), Self::mk(b));
